@@ -306,7 +306,8 @@ fn pack(k: i32, ver: u32) -> u32 {
     (off << 20) | (ver & 0xF_FFFF)
 }
 #[inline]
-fn unpack(v: u32) -> (i32, u32) {
+fn unpack(v: &u32) -> (i32, u32) {
+    let v = *v;
     if PLAIN_WIDE.with(|w| w.get()) {
         return (KEY_ANY, v);
     }
@@ -327,7 +328,7 @@ fn cmp_plain(x: i32, p: i32, fl: u8) -> Ordering {
 }
 
 macro_rules! plain_map_impl {
-    ($ty:ty, $name:expr, $list:expr) => {
+    ($ty:ty, $name:expr, $list:expr, $pack:ident, $unpack:ident) => {
         impl OColl for $ty {
             fn name(&self) -> &'static str {
                 $name
@@ -339,7 +340,7 @@ macro_rules! plain_map_impl {
                 false
             }
             fn insert(&mut self, k: i32, ver: u32) {
-                MapCollection::insert(self, k, pack(k, ver))
+                MapCollection::insert(self, k, $pack(k, ver))
             }
             fn delete(&mut self, k: i32) {
                 MapCollection::delete(self, k)
@@ -349,18 +350,18 @@ macro_rules! plain_map_impl {
             }
             fn get(&self, k: i32) -> Option<Seen> {
                 MapCollection::get_value(self, k).map(|v| {
-                    let (pk, ver) = unpack(*v);
+                    let (pk, ver) = $unpack(v);
                     (pk, pk, ver)
                 })
             }
             fn read(&self, h: u32) -> Seen {
-                let (pk, ver) = unpack(*MapCollection::value_by_index(self, h));
+                let (pk, ver) = $unpack(MapCollection::value_by_index(self, h));
                 (pk, pk, ver)
             }
             fn write(&mut self, h: u32, ver: u32) {
                 let v = MapCollection::value_by_index_mut(self, h);
-                let (pk, _) = unpack(*v);
-                *v = pack(pk, ver);
+                let (pk, _) = $unpack(v);
+                *v = $pack(pk, ver);
             }
             fn first(&self, p: i32) -> u32 {
                 MapCollection::first_index_less(self, p)
@@ -409,8 +410,150 @@ impl MapAux for PML {
         self.verif_keys()
     }
 }
-plain_map_impl!(PMT, "MapTree", false);
-plain_map_impl!(PML, "MapList", true);
+plain_map_impl!(PMT, "MapTree", false, pack, unpack);
+plain_map_impl!(PML, "MapList", true, pack, unpack);
+
+// ---- fat instantiation: 272-byte map values / set values (uninstrumented) -----------------------
+
+#[derive(Clone, Debug)]
+pub struct Fat {
+    pub key: i32,
+    pub ver: u32,
+    pub pad: [u64; 33],
+}
+impl Default for Fat {
+    fn default() -> Self {
+        Fat { key: i32::MIN, ver: 0, pad: [0; 33] }
+    }
+}
+impl i_tree::set::sort::KeyValue<i32> for Fat {
+    #[inline]
+    fn key(&self) -> &i32 {
+        &self.key
+    }
+}
+#[inline]
+fn fat_pack(k: i32, ver: u32) -> Fat {
+    Fat { key: k, ver, pad: [((k as u32 as u64) << 32) | ver as u64; 33] }
+}
+#[inline]
+fn fat_unpack(v: &Fat) -> (i32, u32) {
+    // a value whose padding no longer matches its head was torn or mixed up
+    if v.pad[0] != (((v.key as u32 as u64) << 32) | v.ver as u64) || v.pad[32] != v.pad[0] {
+        return (i32::MIN + 3, v.ver);
+    }
+    (v.key, v.ver)
+}
+
+type FMT = MapTree<i32, Fat>;
+type FML = MapList<i32, Fat>;
+type FST = SetTree<i32, Fat>;
+type FSL = SetList<Fat>;
+
+impl MapAux for FMT {
+    fn aux_snapshot(&self) -> Option<Snap> {
+        Some(snap_from(self.verif_snapshot(), |k: &i32| *k))
+    }
+    fn aux_keys(&self) -> Vec<i32> {
+        inorder_keys(&self.aux_snapshot().unwrap())
+    }
+}
+impl MapAux for FML {
+    fn aux_snapshot(&self) -> Option<Snap> {
+        None
+    }
+    fn aux_keys(&self) -> Vec<i32> {
+        self.verif_keys()
+    }
+}
+plain_map_impl!(FMT, "MapTree", false, fat_pack, fat_unpack);
+plain_map_impl!(FML, "MapList", true, fat_pack, fat_unpack);
+
+macro_rules! fat_set_impl {
+    ($ty:ty, $name:expr, $list:expr) => {
+        impl OColl for $ty {
+            fn name(&self) -> &'static str {
+                $name
+            }
+            fn is_list(&self) -> bool {
+                $list
+            }
+            fn has_neighbours(&self) -> bool {
+                true
+            }
+            fn insert(&mut self, k: i32, ver: u32) {
+                SetCollection::<i32, Fat>::insert(self, fat_pack(k, ver))
+            }
+            fn delete(&mut self, k: i32) {
+                SetCollection::<i32, Fat>::delete(self, &k)
+            }
+            fn delete_by_index(&mut self, h: u32) {
+                SetCollection::<i32, Fat>::delete_by_index(self, h)
+            }
+            fn get(&self, k: i32) -> Option<Seen> {
+                SetCollection::<i32, Fat>::get_value(self, &k).map(|v| {
+                    let (pk, ver) = fat_unpack(v);
+                    (v.key, pk, ver)
+                })
+            }
+            fn read(&self, h: u32) -> Seen {
+                let v = SetCollection::<i32, Fat>::value_by_index(self, h);
+                let (pk, ver) = fat_unpack(v);
+                (v.key, pk, ver)
+            }
+            fn write(&mut self, h: u32, ver: u32) {
+                let v = SetCollection::<i32, Fat>::value_by_index_mut(self, h);
+                let k = v.key;
+                *v = fat_pack(k, ver);
+            }
+            fn first(&self, p: i32) -> u32 {
+                SetCollection::<i32, Fat>::first_index_less(self, &p)
+            }
+            fn first_by(&self, p: i32, fl: u8) -> u32 {
+                SetCollection::<i32, Fat>::first_index_less_by(self, |x: &i32| cmp_plain(*x, p, fl))
+            }
+            fn next(&self, h: u32) -> u32 {
+                SetCollection::<i32, Fat>::index_after(self, h)
+            }
+            fn prev(&self, h: u32) -> u32 {
+                SetCollection::<i32, Fat>::index_before(self, h)
+            }
+            fn is_empty(&self) -> bool {
+                SetCollection::<i32, Fat>::is_empty(self)
+            }
+            fn clear(&mut self) {
+                SetCollection::<i32, Fat>::clear(self)
+            }
+            fn snapshot(&self) -> Option<Snap> {
+                self.aux_snapshot()
+            }
+            fn stored_keys(&self) -> Vec<i32> {
+                self.aux_keys()
+            }
+            fn fresh(&self, cap: usize) -> Box<dyn OColl> {
+                Box::new(<$ty>::new(cap))
+            }
+        }
+    };
+}
+impl MapAux for FST {
+    fn aux_snapshot(&self) -> Option<Snap> {
+        Some(snap_from(self.verif_snapshot(), |v: &Fat| v.key))
+    }
+    fn aux_keys(&self) -> Vec<i32> {
+        inorder_keys(&self.aux_snapshot().unwrap())
+    }
+}
+impl MapAux for FSL {
+    fn aux_snapshot(&self) -> Option<Snap> {
+        None
+    }
+    fn aux_keys(&self) -> Vec<i32> {
+        self.verif_values().iter().map(|v| v.key).collect()
+    }
+}
+fat_set_impl!(FST, "SetTree", false);
+fat_set_impl!(FSL, "SetList", true);
 
 macro_rules! plain_set_impl {
     ($ty:ty, $name:expr, $list:expr) => {
@@ -573,19 +716,23 @@ impl OrdWorld {
             PLAIN_WIDE.with(|w| w.set(cfg.universe > 1024));
         }
         if cfg.colls & C_TREE != 0 {
-            colls.push(match (is_set, plain) {
-                (true, false) => Box::new(ST::new(cfg.cap)),
-                (false, false) => Box::new(MT::new(cfg.cap)),
-                (true, true) => Box::new(PST::new(cfg.cap)),
-                (false, true) => Box::new(PMT::new(cfg.cap)),
+            colls.push(match (is_set, cfg.key_ty) {
+                (true, 1) => Box::new(PST::new(cfg.cap)),
+                (false, 1) => Box::new(PMT::new(cfg.cap)),
+                (true, 2) => Box::new(FST::new(cfg.cap)),
+                (false, 2) => Box::new(FMT::new(cfg.cap)),
+                (true, _) => Box::new(ST::new(cfg.cap)),
+                (false, _) => Box::new(MT::new(cfg.cap)),
             });
         }
         if cfg.colls & C_LIST != 0 {
-            colls.push(match (is_set, plain) {
-                (true, false) => Box::new(SL::new(cfg.cap)),
-                (false, false) => Box::new(ML::new(cfg.cap)),
-                (true, true) => Box::new(PSL::new(cfg.cap)),
-                (false, true) => Box::new(PML::new(cfg.cap)),
+            colls.push(match (is_set, cfg.key_ty) {
+                (true, 1) => Box::new(PSL::new(cfg.cap)),
+                (false, 1) => Box::new(PML::new(cfg.cap)),
+                (true, 2) => Box::new(FSL::new(cfg.cap)),
+                (false, 2) => Box::new(FML::new(cfg.cap)),
+                (true, _) => Box::new(SL::new(cfg.cap)),
+                (false, _) => Box::new(ML::new(cfg.cap)),
             });
         }
         let n = colls.len();
